@@ -2,3 +2,4 @@ pub mod values;
 pub mod dag;
 pub mod programs;
 pub mod terms;
+pub mod envs;
